@@ -93,7 +93,13 @@ func pmonitor(sc pscenario, st *Store, t0 time.Time, apiWrites map[int]bool) (st
 			}
 			return
 		}
-		for id, a := range in.Partitions {
+		var pids []int32
+		for id := range in.Partitions {
+			pids = append(pids, id)
+		}
+		sort.Slice(pids, func(i, j int) bool { return pids[i] < pids[j] })
+		for _, id := range pids {
+			a := in.Partitions[id]
 			b, still := out.Partitions[id]
 			if !still {
 				n, _ := ownersOf(in, id)
